@@ -128,7 +128,7 @@ func c08Ops(rt *rapid.T, cols []model.Col, db *model.DB, nextRid *int64, n int) 
 	}
 	for len(ops) < n {
 		direct := rapid.IntRange(0, 2).Draw(rt, "direct") == 0
-		kind := rapid.SampledFrom([]string{"insert", "insert", "insert", "insert400", "insert401", "update", "update400", "update401", "wrongkind", "intrange", "updwrong", "delete", "updatepair"}).Draw(rt, "opkind")
+		kind := rapid.SampledFrom([]string{"insert", "insert", "insert", "insert400", "insert401", "update", "update400", "update401", "wrongkind", "intrange", "updwrong", "delete", "updatepair", "updateall"}).Draw(rt, "opkind")
 		op := c08Op{Comment: kind}
 		switch kind {
 		case "insert", "insert400", "insert401":
@@ -148,6 +148,22 @@ func c08Ops(rt *rapid.T, cols []model.Col, db *model.DB, nextRid *int64, n int) 
 					prow[i] = row[ci]
 				}
 				op.Stmt.Rows = [][]model.Val{prow}
+			}
+		case "updateall":
+			// one statement that rewrites a column in every row (rows of different lengths)
+			if len(t.Rows) < 2 || len(cols) < 2 {
+				continue
+			}
+			ci := rapid.IntRange(1, len(cols)-1).Draw(rt, "allcol")
+			row, ok := c08Row(rt, cols, 0, direct, 0)
+			if !ok {
+				continue
+			}
+			op.Stmt = model.Stmt{Kind: "update", Table: c08Table, Set: []model.Assign{{Col: cols[ci].Name, Val: row[ci]}}}
+			// (only when every row takes it: a multi-row statement failing at a later row is C14's
+			// subject and its listed finding)
+			if k, err := db.Clone().Apply(op.Stmt); err != nil || k != model.OK {
+				continue
 			}
 		case "updatepair":
 			// the same UPDATE text twice, the second time with different white space INSIDE the string
